@@ -543,13 +543,17 @@ func (g *scenGen) richBlock() Block {
 }
 
 func runC07(c *Ctx) {
-	c.Rule = "tokens built through the library from generated content (every term type, nested expressions over all operators, sets, default symbols, fresh symbols, symbols shared across blocks, 0-40 fresh symbols per block, contexts, 0-3 later blocks, sealed or not, root key ids absent/0/1/7/2^31/2^32-1) are serialized; the Lean wire model decodes the bytes with the published schema and symbol rules and must find block for block the supplied content, version 3, the root key id, the revocation ids; re-encoding the decoded content must reproduce the block bytes and the envelope bytes. Witness search on the library: Unmarshal then String / RevocationIds / RootKeyID / Serialize / an Authorize panel must equal the original's; re-signed blocks with versions 0,1,2,4,2^32-1 must be rejected. Non-trivial = at least two blocks or at least one expression; distinct = distinct serialized content encodings."
+	c.Rule = "tokens built through the library from generated content (every term type, nested expressions over all operators, sets, default symbols, fresh symbols, symbols shared across blocks, 0-40 fresh symbols per block, contexts, 0-3 later blocks, sealed or not, root key ids absent/0/1/7/2^31/2^32-1) are serialized; the Lean wire model decodes the bytes with the published schema and symbol rules and must find block for block the supplied content, version 3, the root key id, the revocation ids; re-encoding the decoded content must reproduce the block bytes and the envelope bytes. Witness search on the library: Unmarshal (package-level, with the caller's base table, and through one Unmarshaler value reused for all tokens) then String / RevocationIds / RootKeyID / Serialize / an Authorize panel must equal the original's; re-signed blocks with versions 0,1,2,4,2^32-1 must be rejected. Non-trivial = at least two blocks or at least one expression; distinct = distinct serialized content encodings."
 	r := NewRng(c.Seed)
 	n := 1500
 	if c.Thorough {
 		n = 25000
 	}
 	ids := []*uint32{nil, nil, u32p(0), u32p(1), u32p(7), u32p(1 << 31), u32p(1<<32 - 1)}
+	// one Unmarshaler value with an (empty) caller-owned table, reused for every token
+	// built without a base table: the caller's table must stay as the caller made it
+	sharedTable := &datalog.SymbolTable{}
+	sharedU := &biscuit.Unmarshaler{Symbols: sharedTable}
 	for i := 0; i < n; i++ {
 		g := newScenGen(r, 2)
 		spec := TokenSpec{RootKeyID: Pick(r, ids), Seal: r.Chance(1, 4)}
@@ -601,6 +605,18 @@ func runC07(c *Ctx) {
 			continue
 		}
 		// implementation-only panel: before vs after the wire
+		if len(spec.Base) == 0 {
+			tok3, err := sharedU.Unmarshal(data)
+			c.Count("shared-unmarshaler")
+			switch {
+			case err != nil:
+				c.Violate("C07/unmarshaler-reuse", "a reused Unmarshaler refuses bytes the package-level Unmarshal accepts: "+err.Error(), map[string]interface{}{"verb": "WIRE", "case": sx})
+			case tok3.String() != tok.String():
+				c.Violate("C07/unmarshaler-reuse", "a reused Unmarshaler decodes the token differently from the token that was serialized", map[string]interface{}{"verb": "WIRE", "case": sx, "before": trunc(tok.String(), 2000), "after": trunc(tok3.String(), 2000)})
+			case sharedTable.Len() != 0:
+				c.Violate("C07/unmarshaler-table-mutated", fmt.Sprintf("Unmarshal extended the caller's symbol table (%d entries)", sharedTable.Len()), map[string]interface{}{"verb": "WIRE", "case": sx})
+			}
+		}
 		tok2, err := unmarshalWith(spec.Base, data)
 		if err != nil {
 			continue
